@@ -68,7 +68,7 @@ class C25(ByteChanSpec):
     prop = "C25"
     sim = "A+C"
     title = "Validator command reports verdicts and decoded pictures faithfully"
-    quick_runs = 24000
+    quick_runs = 18000
     thorough_runs = 600000
     fault_kinds = F.ALL_KINDS + ACCEPT_KINDS
     p_control = 0.15
@@ -136,7 +136,7 @@ class C25(ByteChanSpec):
         stdout, stderr = out.getvalue(), err.getvalue()
         events.append(("cli", rc, lname, len(stdout), sorted(fs.files)))
         stats["rc:%s" % (rc,)] += 1
-        key = "%s|%s|%s|rc=%s" % (cfg_class(case.get("cfg") or case.get("tc")), self.kinds_of(case), lname, rc)
+        key = "%s|%s|%s|rc=%s" % (cfg_class(case.get("cfg") or case.get("tc") or case.get("hist")), self.kinds_of(case), lname, rc)
         if rc == "oos":
             stats["discard:out-of-scope"] += 1
             return Outcome(DISCARD, events, stats=stats, ticks=ticks)
@@ -151,6 +151,17 @@ class C25(ByteChanSpec):
             return viol("C25/unexpected-status/%r" % (rc,), "command exited with %r; stderr: %s" % (rc, stderr[-400:]))
         if (rc == 0) != (lib.verdict == "accept"):
             return viol("C25/verdict-mismatch", "command exited with %r but the library validator says %s" % (rc, lname))
+        if "hist" in case and not case["faults"]:
+            # for un-faulted data-unit histories the reference model of C01 says
+            # whether the stream is conformant: exit 0 exactly when it is
+            from sim import unitchan as U
+
+            upool = U.get_pool(case["hist"]["cfg"])
+            _d, abstract, _m = U.assemble(upool, case["hist"]["units"])
+            reason = U.model_verdict(abstract, upool.hq, upool.pcm, upool.cfg["sx"], upool.cfg["sy"])
+            stats["judged-against-reference-model"] += 1
+            if (rc == 0) != (reason is None):
+                return viol("C25/verdict-differs-from-reference-model", "history %s: command exited with %r but the reference model says %s" % (" ".join(U.unit_repr(u) for u in case["hist"]["units"]), rc, reason or "conformant"))
         outfiles = sorted(p for p in fs.files if p.startswith("/sim/out/"))
         if rc == 2:
             m = re.search(r"Conformance error at bit offset (\d+)\n=+\n\n(.*?)\n\n\nDetails", stdout, re.S)
@@ -238,7 +249,7 @@ class C26(ByteChanSpec):
     prop = "C26"
     sim = "A+C"
     title = "Bitstream viewer never reports an internal error"
-    quick_runs = 16000
+    quick_runs = 12000
     thorough_runs = 400000
     components = {
         "real": ByteChanSpec.components["real"][:2] + ["vc2_conformance.scripts.vc2_bitstream_viewer.main (in-process)", "bitstream MonitoredDeserialiser"],
@@ -302,7 +313,7 @@ class C26(ByteChanSpec):
         stats[("observe_rc:%s" if observe else "rc:%s") % (rc,)] += 1
         stats["clock_reads"] += clock.calls
         stats["simulated_seconds"] += int(clock.simulated_span)
-        key = "%s|%s|%s|rc=%s|%s" % (cfg_class(case.get("cfg") or case.get("tc")), self.kinds_of(case), pre.verdict, rc, "opt" if observe else "default")
+        key = "%s|%s|%s|rc=%s|%s" % (cfg_class(case.get("cfg") or case.get("tc") or case.get("hist")), self.kinds_of(case), pre.verdict, rc, "opt" if observe else "default")
         if observe:
             return Outcome(OK, events, stats=stats, nontrivial=False, key=key, ticks=pre.reads)
         if exc is not None:
